@@ -80,6 +80,24 @@ func runC15(c *Ctx, w *World, r *Report) {
 	if !ok {
 		return
 	}
+	// R-READONLY: a probe changes nothing: Get and Get1 write no memory reachable from the receiver (a read cache, a
+	// probe counter, a lazily normalised field make the answer depend on earlier probes or race between readers)
+	r.Rule("R-READONLY", "TailBitmap.Get and Get1 write no memory reachable from their receiver or from package variables (E1): what a probe returns depends on the Set/Compact history only, never on earlier probes")
+	{
+		e := RunEffects(w)
+		for _, gn := range []string{"bitmap.(*TailBitmap).Get", "bitmap.(*TailBitmap).Get1"} {
+			gf := fns[gn]
+			var bad []string
+			if sm := e.Sum[gf]; sm != nil {
+				for _, ws := range sm.wsites {
+					if ws.r.kind != rkFresh {
+						bad = append(bad, fmt.Sprintf("may write %s at %s (%s)", ws.r, ws.pos, ws.what))
+					}
+				}
+			}
+			r.Check(len(bad) == 0, "R-READONLY", gn, w.Pos(gf.Pos()), strings.Join(bad, "; "), "no write to non-fresh memory")
+		}
+	}
 	r.Rule("R-COMPACT", "Compact advances Offset by 64*c exactly when it drops the first c words (Words = Words[c:], same c, same block), and only under len(Words) > 0 and Words[0] == 2^64-1: Offset stays a multiple of 64, never decreases, never passes a 0 bit")
 	r.Rule("R-SPLIT", "Get/Get1/Set: the stored words are accessed only on the edge idx - Offset >= 0 (exactly: position Offset is a stored bit); on the complementary edge Get returns Bit[idx&63], Get1 returns 1, Set returns without storing")
 	r.Rule("R-REBASE", "the stored bit accessed for idx is bit idx - Offset of Words")
